@@ -138,3 +138,209 @@ class new_cert(Contract):
             from contracts.name import bytes_equal
             out['certificate_is_the_value_without_unused_tail'] = bytes_equal(h, buf, 1 + need_at(h, buf, 1), h, value, 0, L)
         return out
+
+
+# ----------------------------------------------------------------------------- the wrappers: self_sign, sign_req, derive_cert
+import datetime as _dt                                   # noqa: E402
+
+
+class Dt:
+    """a datetime value in the wrappers: built from now(UTC) / fromisoformat / a given start by + timedelta / replace"""
+
+    def __init__(self, expr):
+        self.expr = expr                                  # structural: ('now', k) | ('iso', text) | ('given',) | ('plus', Dt, td) | ...
+
+    def __repr__(self):
+        return f'<Dt {self.expr}>'
+
+    def same(self, other):
+        return isinstance(other, Dt) and _same_expr(self.expr, other.expr)
+
+    def binop_(self, it, op, other, node):
+        import ast
+        if isinstance(op, ast.Add) and isinstance(other, Td):
+            return Dt(('plus', self, other))
+        raise Unsupported('datetime arithmetic other than + timedelta')
+
+    def getattr_(self, it, name, node):
+        if name == 'year':
+            return YearVal()
+        if name == 'replace':
+            def replace(it_, **kw):
+                # ValueError when the day does not exist in the target year (29 February)
+                if 'day' not in kw and it_.run.branch(it_.run.fresh_bool('no_such_day_in_target_year'), 'replace.invalid_day'):
+                    raise PyExc(ValueError, ('day is out of range for month',), getattr(node, 'lineno', None), it_.where())
+                return Dt(('replace', self, tuple(sorted((k, _kv(v)) for k, v in kw.items()))))
+            return _M(replace)
+        raise Unsupported(f'datetime.{name}')
+
+
+class YearPlus:
+    def __init__(self, k):
+        self.k = k
+
+
+def _kv(v):
+    return ('year+', v.k) if isinstance(v, YearPlus) else v
+
+
+def _same_expr(a, b):
+    if isinstance(a, Dt) or isinstance(b, Dt):
+        return isinstance(a, Dt) and isinstance(b, Dt) and _same_expr(a.expr, b.expr)
+    if isinstance(a, Td) or isinstance(b, Td):
+        return isinstance(a, Td) and isinstance(b, Td) and a.kw.keys() == b.kw.keys() and all(
+            (x is y) or (not is_sym(x) and not is_sym(y) and x == y) for x, y in zip(a.kw.values(), b.kw.values()))
+    if isinstance(a, tuple) and isinstance(b, tuple):
+        return len(a) == len(b) and all(_same_expr(x, y) for x, y in zip(a, b))
+    return a == b if not (is_sym(a) or is_sym(b)) else a is b
+
+
+class Td:
+    def __init__(self, kw):
+        self.kw = kw
+
+
+def _install_dt():
+    from pyvc import models
+    Bm = models.BUILTIN_MODELS
+
+    def m_now(it, args, kwargs, node):
+        n = it.run.ghost.setdefault('dt.now', [])
+        d = Dt(('now', len(n), args[0] if args else None))
+        n.append(d)
+        return d
+    Bm[_dt.datetime.now] = m_now
+    Bm[_dt.datetime.fromisoformat] = lambda it, a, k, n: Dt(('iso', a[0]))
+    Bm[_dt.timedelta] = lambda it, a, k, n: Td(dict(k)) if not a else (_ for _ in ()).throw(Unsupported('positional timedelta'))
+
+
+_install_dt()
+
+
+class YearVal:
+    """datetime.year: only `year + k` is used"""
+
+    def binop_(self, it, op, other, node):
+        import ast
+        if isinstance(op, ast.Add) and isinstance(other, int):
+            return YearPlus(other)
+        raise Unsupported('arithmetic on a year other than + k')
+
+
+def _new_cert_result(c, cx, key_name, issuer_id_component, pub_key, signer, start_time, end_time):
+    r = (Opaque('cert_name', 'certificate name'), Opaque('cert_wire', 'certificate'))
+    cx.run.ghost.setdefault('new_cert_calls', []).append(dict(key_name=key_name, issuer=issuer_id_component, pub_key=pub_key,
+                                                              signer=signer, start=start_time, end=end_time, result=r))
+    return r
+
+
+new_cert.result = _new_cert_result
+new_cert.post_assumed = lambda c, cx, result, **p: {}
+new_cert.use_contract_at = lambda c, it, args, kwargs: it.reg.under_proof is not sv.new_cert
+
+
+@contract
+class component_from_str_assumed(Contract):
+    fn = Component.from_str
+    assumed = True
+
+    def use_contract_at(c, it, args, kwargs):
+        return isinstance(args[0], Opaque) and args[0].typ == 'issuer_text'
+
+    def result(c, cx, val):
+        r = Opaque('component', 'issuer component')
+        r.d['of'] = val
+        return r
+
+
+class _Wrapper(Contract):
+    props = ('C16',)
+    raises = {e: (lambda cx, **p: True) for e in ENC_RAISES}
+
+    def common(c, cx, result, key_name, pub_key, signer):
+        calls = cx.run.ghost.get('new_cert_calls', [])
+        out = {'one_certificate_issued': len(calls) == 1}
+        if len(calls) != 1:
+            return out, None
+        k = calls[0]
+        out['certificate_returned_as_issued'] = result is k['result']
+        out['subject_key_public_key_and_signer_passed_on'] = k['key_name'] is key_name and k['pub_key'] is pub_key and k['signer'] is signer
+        return out, k
+
+
+@contract
+class self_sign(_Wrapper):
+    fn = sv.self_sign
+    doc = ('self_sign(key_name, pub_key, signer): one certificate for this key, public key and signer, issuer component "self", valid '
+           'from the epoch until today\'s date twenty years on (28 February when that date does not exist)')
+
+    def setup(self, cx):
+        return dict(key_name=Opaque('token', 'key name'), pub_key=Opaque('token', 'public key'), signer=Opaque('token', 'signer'))
+
+    def post(c, cx, result, key_name, pub_key, signer):
+        out, k = c.common(cx, result, key_name, pub_key, signer)
+        if k is None:
+            return out
+        out['issuer_is_self'] = k['issuer'] is sv.SELF_COMPONENT
+        out['valid_from_the_epoch'] = isinstance(k['start'], Dt) and k['start'].expr == ('iso', '1970-01-01T00:00:00')
+        e = k['end']
+        now = cx.run.ghost.get('dt.now', [])
+        ok = isinstance(e, Dt) and e.expr[0] == 'replace' and len(now) == 1 and e.expr[1] is now[0] and now[0].expr[2] is _dt.UTC
+        out['valid_until_now_plus_twenty_years_in_utc'] = ok and e.expr[2] in ((('year', ('year+', 20)),), (('day', 28), ('year', ('year+', 20))))
+        return out
+
+
+@contract
+class sign_req(_Wrapper):
+    fn = sv.sign_req
+    doc = ('sign_req(key_name, pub_key, signer): one certificate request for this key, public key and signer, issuer component '
+           '"cert-request", valid from now (UTC) for ten days')
+
+    def setup(self, cx):
+        return dict(key_name=Opaque('token', 'key name'), pub_key=Opaque('token', 'public key'), signer=Opaque('token', 'signer'))
+
+    def post(c, cx, result, key_name, pub_key, signer):
+        out, k = c.common(cx, result, key_name, pub_key, signer)
+        if k is None:
+            return out
+        out['issuer_is_cert_request'] = k['issuer'] is sv.SIGN_REQ_COMPONENT
+        s, e = k['start'], k['end']
+        out['valid_from_now_utc'] = isinstance(s, Dt) and s.expr[0] == 'now' and s.expr[2] is _dt.UTC
+        out['valid_for_ten_days_from_now'] = isinstance(e, Dt) and e.expr[0] == 'plus' and e.expr[1].expr[0] == 'now' and \
+            e.expr[1].expr[2] is _dt.UTC and e.expr[2].kw == {'days': 10}
+        return out
+
+
+@contract
+class derive_cert(_Wrapper):
+    fn = sv.derive_cert
+    doc = ('derive_cert(key_name, issuer_id, pub_key, signer, start_time, expire_sec): one certificate for this key, public key and '
+           'signer, issuer component = the given component (a text issuer id is converted with Component.from_str), valid from '
+           'start_time for expire_sec seconds')
+
+    def setup(self, cx):
+        run = cx.run
+        ik = run.choose([('component', True), ('text', True)], 'issuer_id')
+        issuer = Opaque('component', 'issuer component') if ik == 'component' else IssuerText('issuer_text', 'issuer text')
+        issuer.d['__isinstance__'] = (lambda t: t is str) if ik == 'text' else (lambda t: t in (bytes, bytearray, memoryview, object))
+        return dict(key_name=Opaque('token', 'key name'), issuer_id=issuer, pub_key=Opaque('token', 'public key'),
+                    signer=Opaque('token', 'signer'), start_time=Dt(('given',)), expire_sec=run.input_int('expire_sec'))
+
+    def post(c, cx, result, key_name, issuer_id, pub_key, signer, start_time, expire_sec):
+        out, k = c.common(cx, result, key_name, pub_key, signer)
+        if k is None:
+            return out
+        if isinstance(issuer_id, IssuerText):
+            out['text_issuer_id_converted_to_a_component'] = isinstance(k['issuer'], Opaque) and k['issuer'].d.get('of') is issuer_id
+        else:
+            out['issuer_component_passed_on'] = k['issuer'] is issuer_id
+        e = k['end']
+        out['valid_from_start_time'] = k['start'] is start_time
+        out['valid_for_expire_sec_seconds'] = isinstance(e, Dt) and e.expr[0] == 'plus' and e.expr[1] is start_time and \
+            list(e.expr[2].kw) == ['seconds'] and e.expr[2].kw['seconds'] is expire_sec
+        return out
+
+
+class IssuerText(Opaque):
+    def isinstance_(self, t):
+        return t is str
